@@ -401,6 +401,38 @@ func (iv *IV) structural(v ssa.Value, b *ssa.BasicBlock, depth int) Itv {
 			}
 			return r
 		}
+		if CalleeName(v.Common()) == "cmp.Or" && len(v.Call.Args) == 1 {
+			// first non-zero argument: the earlier arguments contribute their non-zero values only
+			if els := variadicElems(v.Call.Args[0]); len(els) > 0 {
+				var acc *Itv
+				join := func(x Itv) {
+					if acc == nil {
+						acc = &x
+					} else {
+						h := acc.Hull(x)
+						acc = &h
+					}
+				}
+				for i, e := range els {
+					x := sub(e)
+					if i == len(els)-1 || !x.ContainsInt(0) {
+						join(x)
+						break
+					}
+					if x.Lo != nil && x.Lo.Sign() == 0 {
+						x.Lo = bi(1)
+					} else if x.Hi != nil && x.Hi.Sign() == 0 {
+						x.Hi = bi(-1)
+					}
+					if !x.Empty() {
+						join(x)
+					}
+				}
+				if acc != nil {
+					return acc.Meet(tr)
+				}
+			}
+		}
 		if bu, ok := v.Call.Value.(*ssa.Builtin); ok && (bu.Name() == "min" || bu.Name() == "max") && len(v.Call.Args) == 2 {
 			x, y := sub(v.Call.Args[0]), sub(v.Call.Args[1])
 			if bu.Name() == "min" {
@@ -912,4 +944,51 @@ func (iv *IV) LenSym(x ssa.Value) SymBound {
 		return iv.LenSym(x.X)
 	}
 	return SymBound{}
+}
+
+// variadicElems: the values of a variadic argument list built at the call site (a fresh array, each element stored
+// once, sliced whole); nil when the slice is anything else.
+func variadicElems(v ssa.Value) []ssa.Value {
+	sl, ok := v.(*ssa.Slice)
+	if !ok || sl.Low != nil || sl.High != nil {
+		return nil
+	}
+	a, ok := sl.X.(*ssa.Alloc)
+	if !ok || a.Referrers() == nil {
+		return nil
+	}
+	arr, ok := a.Type().Underlying().(*types.Pointer).Elem().Underlying().(*types.Array)
+	if !ok {
+		return nil
+	}
+	out := make([]ssa.Value, arr.Len())
+	for _, r := range *a.Referrers() {
+		switch x := r.(type) {
+		case *ssa.IndexAddr:
+			k, isK := constInt(x.Index)
+			if !isK || x.Referrers() == nil || !k.IsInt64() || k.Int64() < 0 || k.Int64() >= arr.Len() {
+				return nil
+			}
+			for _, u := range *x.Referrers() {
+				st, isSt := u.(*ssa.Store)
+				if !isSt || st.Addr != ssa.Value(x) || out[k.Int64()] != nil {
+					return nil
+				}
+				out[k.Int64()] = st.Val
+			}
+		case *ssa.Slice:
+			if x != sl {
+				return nil
+			}
+		case *ssa.DebugRef:
+		default:
+			return nil
+		}
+	}
+	for _, e := range out {
+		if e == nil {
+			return nil
+		}
+	}
+	return out
 }
